@@ -135,12 +135,15 @@ def build(spec):
                     vy=rng.uniform(-.1, .1), vz=rng.uniform(-.1, .1))
         sim.gravity = "none"
     else:
-        sim.add(m=spec.get("m0", 1.0))
-        for i in range(n):
-            sim.add(m=10 ** rng.uniform(-7, -3.5), a=1.0 + 0.45 * i + rng.uniform(0, .1), e=rng.uniform(0, 0.1),
-                    inc=rng.uniform(0, 0.05), Omega=rng.uniform(0, 6), omega=rng.uniform(0, 6), f=rng.uniform(0, 6),
+        if spec.get("corner") != "empty":
+            sim.add(m=spec.get("m0", 1.0))
+        for i in range(n if spec.get("corner") != "empty" else 0):
+            sim.add(m=10 ** rng.uniform(-7, -3.5), a=1.0 + 0.45 * i + rng.uniform(0, .1),
+                    e={"e_zero": 0.0, "e_near_one": 1.0 - 1e-9}.get(spec.get("corner"), rng.uniform(0, 0.1)),
+                    inc={"inc_zero": 0.0, "inc_pi": 3.141592653589793}.get(spec.get("corner"), rng.uniform(0, 0.05)), Omega=rng.uniform(0, 6), omega=rng.uniform(0, 6), f=rng.uniform(0, 6),
                     primary=sim.particles[0])
-        sim.move_to_com()
+        if sim.N:
+            sim.move_to_com()
     sim.integrator = integ
     sim.dt = spec["dt"]
     if integ == "janus":
@@ -161,6 +164,32 @@ def build(spec):
         sim.exact_finish_time = 0
     if integ == "eos":
         sim.ri_eos.n = 2
+    # ---- degenerate corners of the quantified space (each is a spec option; see CORNERS in tools/c19.py)
+    cn = spec.get("corner")
+    if cn == "zero_mass":
+        for q in sim.particles[1:]: q.m = 0.0
+    elif cn == "coincident" and sim.N >= 3:
+        sim.particles[2].x = sim.particles[1].x; sim.particles[2].y = sim.particles[1].y; sim.particles[2].z = sim.particles[1].z
+    elif cn == "nan":
+        sim.particles[sim.N - 1].x = float("nan")
+    elif cn == "inf":
+        sim.particles[sim.N - 1].vx = float("inf")
+    elif cn == "huge":
+        for q in sim.particles:
+            q.x *= 1e150; q.y *= 1e150; q.z *= 1e150
+    elif cn == "subnormal":
+        for q in sim.particles:
+            q.x *= 1e-310; q.y *= 1e-310; q.z *= 1e-310; q.vx *= 1e-310; q.vy *= 1e-310; q.vz *= 1e-310
+    elif cn == "negative_zero":
+        for q in sim.particles:
+            q.z = -0.0; q.vz = -0.0
+    elif cn == "t_nonzero":
+        sim.t = 1.0e6
+    elif cn == "zero_radius_collisions":
+        sim.collision = "direct"; sim.collision_resolve = "merge"
+        for q in sim.particles: q.r = 0.0
+    elif cn == "equal_hashes" and sim.N >= 3:
+        sim.particles[1].hash = 7; sim.particles[2].hash = 7
     # ---- optional state the serializer has to carry (every kind gets its own scenario in the harness)
     if spec.get("n_test"):                       # test particles behind N_active
         na = sim.N
@@ -194,22 +223,41 @@ def extra_state_bits(sim):
     return out
 
 
+def safe_integrate(sim, t, eft, log):
+    """integrate; a Python-level error raised from the library's message / status path is recorded and the SAME object keeps being used"""
+    try:
+        sim.integrate(t, exact_finish_time=eft)
+    except Exception as e:
+        log.append(type(e).__name__)
+
+
 def job(spec, tmpdir, out, k):
     """create -> integrate -> copy -> save -> load -> continue both -> streams -> free"""
     try:
         time.sleep(spec.get("offset", 0.0))
+        log = []
         sim = build(spec)
         eft = 0 if spec["integrator"] == "whfast512" else spec.get("eft", 1)
-        sim.integrate(spec["t1"], exact_finish_time=eft)
+        if spec.get("corner") == "after_error":
+            sim.exit_max_distance = 1e-3                       # first call takes the error path (Escape), then the limit is lifted
+            safe_integrate(sim, spec["t1"], eft, log)
+            sim.exit_max_distance = 0.0
+        t1, t2 = spec["t1"], spec["t2"]
+        if spec.get("corner") == "dt_negative":
+            t1, t2 = -t1, -t2
+        if spec.get("corner") == "t_nonzero":
+            t1, t2 = sim.t + t1, sim.t + t2
+        if spec.get("corner") == "tmax_equals_t":
+            t1 = sim.t
+        safe_integrate(sim, t1, eft, log)
         c = sim.copy()
         path = os.path.join(tmpdir, "s%d_%d.bin" % (k, threading.get_ident()))
         sim.save_to_file(path, delete_file=True)
         l = rebound.Simulation(path)
         os.remove(path)
-        l.integrate(spec["t2"], exact_finish_time=eft)
-        c.integrate(spec["t2"], exact_finish_time=eft)
-        sim.integrate(spec["t2"], exact_finish_time=eft)
-        r = [sha(canon(stream_of(x))) for x in (sim, c, l)]
+        for x in (l, c, sim):
+            safe_integrate(x, t2, eft, log)
+        r = [sha(canon(stream_of(x))) for x in (sim, c, l)] + ["|".join(log)]
         del sim, c, l
         out[k] = r
     except Exception as e:
@@ -276,12 +324,50 @@ def fetch(port, path="/simulation", timeout=30):
     return b[i + 3:]
 
 
+EDGE_REQUESTS = [
+    b"POST /screenshot HTTP/1.0\r\nContent-Length: 0\r\n\r\n",          # zero-length upload
+    b"POST /screenshot HTTP/1.0\r\n\r\n",                               # upload without a length
+    b"POST /screenshot HTTP/1.0\r\nContent-Length: 5\r\n\r\nabcde",      # upload nobody asked for
+    b"POST /screenshot HTTP/1.0\r\nContent-Length: -5\r\n\r\n",         # negative length
+    b"GET /nope HTTP/1.0\r\n\r\n",                                      # unknown path
+    b"HEAD /simulation HTTP/1.0\r\n\r\n",                               # unsupported method
+    b"PUT /simulation HTTP/1.0\r\n\r\n",
+    b"GET /keyboard/abc HTTP/1.0\r\n\r\n",                              # key that is not a number
+    b"GET /keyboard/99999999999999999999 HTTP/1.0\r\n\r\n",             # key beyond int
+    b"GET /keyboard/-1 HTTP/1.0\r\n\r\n",
+    b"GET /keyboard/0 HTTP/1.0\r\n\r\n",
+    b"GET /" + b"a" * 5000 + b" HTTP/1.0\r\n\r\n",                       # request line longer than the server's buffer
+    b"GET /simulation HTTP/1.0\r\nX-A: " + b"b" * 3000 + b"\r\n\r\n",    # header longer than the buffer
+    b"GET /SIMULATION HTTP/1.0\r\n\r\n",                                # other case
+    b"GET /simulation?x=1 HTTP/1.0\r\n\r\n",
+    b"\r\n\r\n",                                                        # empty request line
+    b"",                                                                # connect and close
+]
+
+
+def raw_request(port, data, wait=0.05):
+    """send bytes as they are, read whatever comes back for a moment, close; never raises"""
+    try:
+        s = socket.create_connection(("127.0.0.1", port), timeout=2)
+        if data:
+            s.sendall(data)
+        s.settimeout(wait)
+        try:
+            while s.recv(65536):
+                pass
+        except Exception:
+            pass
+        s.close()
+    except Exception:
+        pass
+
+
 def mode_client():
     """separate PROCESS that fetches /simulation in a loop (threads) and writes length-prefixed bodies to a file.
     (Clients live in their own process: server.c closes every connection descriptor twice (fclose + close), which in a
     multi-threaded process can close a descriptor another thread has just opened.)"""
     port = int(sys.argv[2]); outpath = sys.argv[3]; stopfile = sys.argv[4]
-    delays = json.loads(sys.argv[5]); pauses = json.loads(sys.argv[6]); others = sys.argv[7] == "1"
+    delays = json.loads(sys.argv[5]); pauses = json.loads(sys.argv[6]); others = sys.argv[7] in ("1", "2"); edges = sys.argv[7] == "2"
     lock = threading.Lock()
     out = open(outpath, "wb")
     nerr = [0]
@@ -298,10 +384,14 @@ def mode_client():
                 bad += 1; nerr[0] += 1; time.sleep(0.002)
             if pause: time.sleep(pause)
     def other():
+        k = 0
         while not os.path.exists(stopfile):
-            for path in ("/favicon.ico", "/nonexistent", "/"):
-                try: fetch(port, path)
-                except Exception: pass
+            if edges:
+                raw_request(port, EDGE_REQUESTS[k % len(EDGE_REQUESTS)]); k += 1
+            else:
+                for path in ("/favicon.ico", "/nonexistent", "/"):
+                    try: fetch(port, path)
+                    except Exception: pass
             time.sleep(0.003)
     ths = [threading.Thread(target=client, args=(d, q)) for d, q in zip(delays, pauses)]
     if others: ths.append(threading.Thread(target=other))
@@ -315,7 +405,7 @@ def start_clients(port, workdir, delays, pauses, others):
     import subprocess
     outpath = os.path.join(workdir, "bodies.bin"); stopfile = os.path.join(workdir, "stop")
     pr = subprocess.Popen([sys.executable, os.path.abspath(__file__), "client", str(port), outpath, stopfile, json.dumps(delays),
-                           json.dumps(pauses), "1" if others else "0"], stdout=subprocess.PIPE, stderr=subprocess.DEVNULL, cwd=workdir)
+                           json.dumps(pauses), str(int(others)) if not isinstance(others, bool) else ("1" if others else "0")], stdout=subprocess.PIPE, stderr=subprocess.DEVNULL, cwd=workdir)
     return pr, outpath, stopfile
 
 
@@ -427,7 +517,8 @@ def mode_server(p):
         cl = None
         if with_server:
             port = start_server_robust(sim, rng)
-            cl = start_clients(port, wd, p["client_delays"][:p["clients"]], p["client_pauses"][:p["clients"]], bool(p.get("other_requests")))
+            cl = start_clients(port, wd, p["client_delays"][:p["clients"]], p["client_pauses"][:p["clients"]],
+                               2 if p.get("other_requests") == 2 else bool(p.get("other_requests")))
             time.sleep(0.05)
         t = 0.0
         for i in range(p["calls"]):
@@ -969,6 +1060,35 @@ def mode_latestart(p):
     return res
 
 
+def mode_incomplete(p):
+    """a client that goes away before the end of its request headers: does the server keep serving, does the integration go on, can the
+    server still be stopped?  (os._exit at the end: a server thread that spins cannot be joined)"""
+    import resource
+    wd = enter_workdir()
+    rng = random.Random(p["seed"])
+    sim = build(p["spec"])
+    port = start_server_robust(sim, rng)
+    def serves():
+        try:
+            return len(fetch(port, timeout=2)) > 64
+        except Exception:
+            return False
+    res = {"serves_before": serves(), "steps": []}
+    for data in p["requests"]:
+        raw_request(port, data.encode("latin1"), wait=0.05)
+        time.sleep(0.1)
+        c0 = resource.getrusage(resource.RUSAGE_SELF).ru_utime; time.sleep(0.3); c1 = resource.getrusage(resource.RUSAGE_SELF).ru_utime
+        res["steps"].append({"request": data[:40], "serves_after": serves(), "cpu_burnt_in_0.3s_idle": round(c1 - c0, 2)})
+    sim.integrate(p["tmax"]); res["integration_ok"] = sim.t >= p["tmax"]
+    done = [False]
+    def stop():
+        sim.stop_server(); done[0] = True
+    th = threading.Thread(target=stop, daemon=True); th.start(); th.join(5)
+    res["stop_server_returns"] = done[0]
+    print(json.dumps(res)); sys.stdout.flush()
+    os._exit(0)
+
+
 def mode_teardown(p):
     """life cycle under load: simulations with a running server and clients fetching continuously are freed (Python: del ->
     reb_simulation_free_pointers -> reb_simulation_stop_server) or have their server stopped and restarted; a crash or hang of this
@@ -1073,7 +1193,7 @@ if __name__ == "__main__":
     if mode == "client":
         mode_client(); sys.stdout.flush(); os._exit(0)
     params = json.load(sys.stdin)
-    res = {"conc": mode_conc, "server": mode_server, "torn": mode_torn, "w512": mode_w512, "fdclose": mode_fdclose, "steps": mode_steps, "keyboard": mode_keyboard, "coresident": mode_coresident, "teardown": mode_teardown, "hammer": mode_hammer, "compress": mode_compress, "history": mode_history, "latestart": mode_latestart}[mode](params)
+    res = {"conc": mode_conc, "server": mode_server, "torn": mode_torn, "w512": mode_w512, "fdclose": mode_fdclose, "steps": mode_steps, "keyboard": mode_keyboard, "coresident": mode_coresident, "teardown": mode_teardown, "hammer": mode_hammer, "compress": mode_compress, "history": mode_history, "latestart": mode_latestart, "incomplete": mode_incomplete}[mode](params)
     print(json.dumps(res))
     sys.stdout.flush()
     os._exit(0)
